@@ -295,7 +295,7 @@ both faults may hit a PDU and its retransmission (ordinals are per direction as 
         ctx.section = "F=2-all-kinds-exhaustive".into();
         ctx.drive_list(&part, cases, true);
     }
-    let n = ctx.tier.pick(40_000u64, 200_000);
+    let n = ctx.tier.pick(40_000u64, 1_000_000);
     let base2 = base.clone();
     let strat = (0..base2.len(), any::<u64>(), proptest::collection::vec((any::<bool>(), 0u32..40, 0usize..5), 2..=2)).prop_map(move |(bi, seed, fs)| {
         let (sc, a, b) = &base2[bi];
